@@ -406,6 +406,8 @@ class Evaluator:
                     return App("bound", (Ref("func", m), base), node)
                 a = self.repo.class_attr(ci, attr)
                 if a is not None:
+                    if self._stored_through_class_name(ci, attr):
+                        return App("attr:" + attr, (base,), node)  # written at run time somewhere: state, not a constant
                     return self.eval_expr(a[0], State(), Frame(None, a[1].module, None, 0))
                 if attr == "__name__":
                     return Const(ci.name)
@@ -456,7 +458,26 @@ class Evaluator:
             return True
         return bool(fr.exact)
 
+    def _stored_through_class_name(self, ci, attr) -> bool:
+        """`ClassName.attr = ...` (or setattr(ClassName, 'attr', ...)) inside any function of the repository: the attribute is state,
+        not a constant, whatever its class-level initial value says."""
+        if not hasattr(self, "_class_stores"):
+            found = set()
+            for f in self.repo.all_functions():
+                for n in ast.walk(f.node):
+                    if isinstance(n, ast.Attribute) and isinstance(n.ctx, (ast.Store, ast.Del)) and isinstance(n.value, ast.Name) \
+                            and n.value.id not in ("self",):
+                        found.add((n.value.id, n.attr))
+                    if isinstance(n, ast.Call) and isinstance(n.func, ast.Name) and n.func.id == "setattr" and len(n.args) >= 2 \
+                            and isinstance(n.args[0], ast.Name) and isinstance(n.args[1], ast.Constant):
+                        found.add((n.args[0].id, n.args[1].value))
+            self._class_stores = found
+        names = {c.name for c in self.repo.mro(ci) + self.repo.subclasses(ci)} | {"cls"}
+        return any((nm, attr) in self._class_stores for nm in names)
+
     def _instance_assigned(self, ci, attr) -> bool:
+        if self._stored_through_class_name(ci, attr):
+            return True
         for c in self.repo.mro(ci) + self.repo.subclasses(ci):
             for m in c.methods.values():
                 for n in ast.walk(m.node):
@@ -468,7 +489,7 @@ class Evaluator:
     def _overridden_below(self, ci, attr) -> bool:
         key = (ci.fq, attr)
         if key not in self._override_cache:
-            over = any(attr in sub.attrs for sub in self.repo.subclasses(ci))
+            over = any(attr in sub.attrs for sub in self.repo.subclasses(ci)) or self._stored_through_class_name(ci, attr)
             if not over:
                 # assigned as an instance attribute somewhere in the class family
                 for c in self.repo.mro(ci) + self.repo.subclasses(ci):
